@@ -310,7 +310,11 @@ static int ex_lineno(char **num)
 		}
 	}
 	while (**num == '-' || **num == '+') {
-		n += atoi((*num)++);
+		if (isdigit((unsigned char) (*num)[1]))
+			n += atoi(*num);
+		else
+			n += **num == '-' ? -1 : +1;
+		(*num)++;
 		while (isdigit((unsigned char) **num))
 			(*num)++;
 	}
